@@ -14,6 +14,7 @@ Pick(keys, status) ==
    ELSE IF "default" \in keys THEN "default"
    ELSE "none"
 
+(* the ONLY responses that are not checked: HEAD, and the four redirect / not-modified statuses *)
 Skipped(method, status) == method = "HEAD" \/ status \in {301, 304, 307, 308}
 
 (* part 1: which entry is checked.  Entry k accepts exactly the bodies carrying property "e"+k. *)
@@ -42,6 +43,16 @@ BodySchemaOf(req) == [type |-> "object", pk |-> <<"q", "r", "w">>,
                ps |-> <<TInt, [type |-> "string", readOnly |-> TRUE], [type |-> "string", writeOnly |-> TRUE]>>,
                required |-> (IF req = "qw" THEN <<"q", "w">> ELSE <<"q", "r", "w">>)]
 BodySchema == BodySchemaOf("qw")
+(* the same schema reached through a composition keyword or one level down: the response side (read-only required, *)
+(* write-only forbidden) applies at every depth and in every alternative                                          *)
+BodySchemaW(req, wrap) ==
+   CASE wrap = "plain" -> BodySchemaOf(req)
+     [] wrap = "anyOf" -> [anyOf |-> <<[type |-> "boolean"], BodySchemaOf(req)>>]
+     [] wrap = "oneOf" -> [oneOf |-> <<BodySchemaOf(req), [type |-> "boolean"]>>]
+     [] wrap = "allOf" -> [allOf |-> <<[type |-> "object"], BodySchemaOf(req)>>]
+     [] wrap = "items" -> [type |-> "array", items |-> BodySchemaOf(req)]
+     [] wrap = "itemsAnyOf" -> [type |-> "array", items |-> [anyOf |-> <<BodySchemaOf(req)>>]]
+     [] wrap = "prop"  -> [type |-> "object", pk |-> <<"in">>, ps |-> <<BodySchemaOf(req)>>]
 TextSchema == [type |-> "string", minLength |-> 2]
 
 Json == MT("application", "json", "")
@@ -59,7 +70,8 @@ DefAccepts(c) ==
             \/ IF sel.ty = "text"
                THEN c.body.t = "str" /\ Valid(TextSchema, c.body, "asrep")
                ELSE c.body.t \notin {"str", "raw"}        \* a text body / truncated text is not JSON
-                    /\ Valid(BodySchemaOf(c.req), c.body, IF c.excludeWO THEN "asrep_nowo" ELSE "asrep")
+                    /\ Valid(BodySchemaW(c.req, IF "wrap" \in DOMAIN c THEN c.wrap ELSE "plain"), c.body,
+                             IF c.excludeWO THEN "asrep_nowo" ELSE "asrep")
 
 Accepts(c) == IF c.part = "pick" THEN PickAccepts(c) ELSE DefAccepts(c)
 =============================================================================
